@@ -149,7 +149,13 @@ fn ustrategy() -> BoxedStrategy<UCase> {
         any::<u64>(),
     )
         .prop_filter("p in (0,1)", |(_, _, p, _)| *p > 0.0 && *p < 1.0)
-        .prop_map(|(ctor, n, p, seed)| UCase { ctor, n, p, seed })
+        .prop_map(|(ctor, n, p, seed)| {
+            // Bloom only: rates down to the smallest positive f64 (k = 1074 hash functions); a cuckoo fingerprint
+            // for such a rate would not fit 64 bits, which the constructor rejects by assertion
+            let p = if ctor == Ctor::Bloom && seed % 40 == 0 { [5e-324f64, 1e-320, 1e-310, 5.5e-309, 2.2250738585072014e-308, 1e-300][(seed / 40 % 6) as usize] } else { p };
+            let n = if p < 1e-200 { n.min(50) } else { n };
+            UCase { ctor, n, p, seed }
+        })
         .boxed()
 }
 
